@@ -177,6 +177,20 @@ class Driver:
         return len(lines)
 
 
+class Runaway(Exception):
+    """a listing that should be finite keeps yielding"""
+
+
+def capped(iterable, cap=3000):
+    """list(iterable), but give up (Runaway) after `cap` items: no storage in any check holds that many policies"""
+    out = []
+    for x in iterable:
+        out.append(x)
+        if len(out) > cap:
+            raise Runaway('more than %d items' % cap)
+    return out
+
+
 # ------------------------------------------------------------------ results
 
 class Failure:
